@@ -22,6 +22,17 @@ enum SortFormat {
 }
 
 impl SortFormat {
+    /// Checks that `value` is a valid key in this format.
+    fn check(&self, value: &str) -> anyhow::Result<()> {
+        match self {
+            Self::Lexicographic => Ok(()),
+            Self::Numeric => value
+                .parse::<f64>()
+                .map(|_| ())
+                .map_err(|_| anyhow!("\"{}\" is not a valid number", value)),
+        }
+    }
+
     fn cmp(&self, a: &str, b: &str) -> anyhow::Result<Ordering> {
         match self {
             Self::Lexicographic => Ok(a.cmp(b)),
@@ -179,6 +190,22 @@ impl ValidatorSync for KeepSortedValidator {
                         };
 
                         if let Some((curr_val, curr_range)) = value {
+                            if prev_value.is_none() {
+                                // The first key is compared with nothing: a block with a single
+                                // malformed key must not pass silently.
+                                sort_format.check(curr_val).with_context(|| {
+                                    format!(
+                                        "in block {}:{} defined at line {}",
+                                        file_path.display(),
+                                        block_with_context.block.name_display(),
+                                        block_with_context
+                                            .block
+                                            .start_tag_position_range
+                                            .start()
+                                            .line,
+                                    )
+                                })?;
+                            }
                             if let Some((prev_val, _prev_range)) = &prev_value {
                                 let cmp =
                                     sort_format.cmp(prev_val, curr_val).with_context(|| {
